@@ -945,7 +945,7 @@ let dSIR_compact_pairwise v_X _ v_N v_tau v_gamma =
     qminus
       (qplus (qmult (qopp v_gamma) v_SI)
         (qmult (qmult (qmult v_tau (qminus v_SS v_SI)) v_SI) v_Q))
-      (qmult (qmult { qnum = (Zpos (XO XH)); qden = XH } v_tau) v_SI)
+      (qmult v_tau v_SI)
   in
   let v_dR = qmult v_gamma v_I in app v_dSk (v_dSS :: (v_dSI :: (v_dR :: [])))
 
